@@ -39,6 +39,8 @@ def cases(rng, tier):
         yield {"kind": "pkg", "mods": s["mods"], "exts": s["exts"]}
     for _ in range(max(12, n_p // 5)):
         yield {"kind": "nonfinite", "seed": rng.randrange(10**6), "size": rng.randint(0, 3)}
+    for v in range(6):
+        yield {"kind": "zeroarity", "v": v}
 
 
 _cache = [None, None]
@@ -75,6 +77,47 @@ def _nonfinite_hugr(spec):
     return h
 
 
+def _zeroarity_hugr(spec):
+    """state-order edges on operations WITHOUT value ports in the edge's direction (the order port is then port 0), on
+    nodes whose recorded port counts are non-zero from their past: the operation was replaced in place after a value link
+    was deleted, or a stray link was added and removed (seeded change C03-16: `offset or num_ports`, a legitimate order-port
+    offset of 0 taken for "no order port")"""
+    from hugr import ops, tys
+    from hugr.build.dfg import Dfg
+
+    v = spec["v"]
+    B = tys.Bool
+    d = Dfg(B)
+    h = d.hugr
+    mk = lambda name, i, o: ops.Custom(name, tys.FunctionType(i, o), extension="verif.ext")
+    a = d.add_op(mk("src", [], [B]))
+    b = d.add_op(mk("snk", [B], []), a[0])
+    d.set_outputs(d.inputs()[0])
+    if v % 3 == 0:
+        # the value link goes away, both operations are replaced by ones without any value port
+        h.delete_link(a.out(0), b.inp(0))
+        h[a].op = mk("src0", [], [])
+        h[b].op = mk("snk0", [], [])
+    elif v % 3 == 1:
+        # only the source loses its outputs; a stray link on a far port came and went
+        h.delete_link(a.out(0), b.inp(0))
+        h.add_link(a.out(2), b.inp(3))
+        h.delete_link(a.out(2), b.inp(3))
+        h[a].op = mk("src0", [], [])
+        h[b].op = mk("snk0", [], [])
+    else:
+        # fresh nodes next to the ones with a past (recorded count 0: the control)
+        h.delete_link(a.out(0), b.inp(0))
+        h[a].op = mk("src0", [], [])
+        h[b].op = mk("snk0", [], [])
+        c = d.add_op(mk("src0", [], []))
+        h.add_order_link(c, b)
+    h.add_order_link(a, b)
+    if v % 2:
+        h.add_order_link(d.input_node, a)
+    return h
+
+
 def _docs(spec):
     """[(root definition, document, hugr or None)]"""
     key = json.dumps(spec, sort_keys=True)
@@ -102,6 +145,9 @@ def _docs(spec):
             pkg = Package([h], [])
             out.append(("Package", _strict_loads(pkg._to_serial().model_dump_json()), None))
             out.append(("Package", _strict_loads(pkg.to_str()[pkg.to_str().index("{"):]), None))
+        elif spec["kind"] == "zeroarity":
+            h = _zeroarity_hugr(spec)
+            out.append(("SerialHugr", _strict_loads(h.to_json()), h))
         else:
             h = C02.build(spec)
             if h is not None:
@@ -284,6 +330,8 @@ def shrink(spec, pred):
             while len(s[key]) > 0 and pred({**s, key: s[key][:-1]}):
                 s = {**s, key: s[key][:-1]}
         return s
+    if spec["kind"] == "zeroarity":
+        return spec
     if spec["kind"] == "nonfinite":
         for size in range(spec["size"]):
             if pred({**spec, "size": size}):
